@@ -177,6 +177,11 @@ pub fn run(a: &Args) -> i32 {
                             "only_reference": only_a, "only_permuted": only_b}));
                     }
                 }
+                // the generator succeeded but the extractor cannot read a construct of the emitted code: a broken tie (the
+                // IR-based oracles cannot run), not a refusal of the input
+                (RealOutcome::Ok(_), Err(_)) => {
+                    rep.disagree(json!({"what": "the emitted tokens could not be read into the IR", "file": "c07.rs"}));
+                }
                 (other, _) => rep.fail("front-ends-differ:type-order", json!({"schema_reference": rs[0].2, "schema": ptext, "query": qtext, "outcome": other.kind()})),
             }
         }
